@@ -414,7 +414,8 @@ def encode(c, version=None):
                 out += bs(s["path"] or b"") + bs(s["uuid"]) + vb(s["size"] or 0)
         else:
             out += b"P" + vb(p["level"]) + vb(p["total"]) + vb(p["free"]) + bs(p["splits"][0]["uuid"])
-    for di in range(len(c.maps)):
+    order = list(c.holes_seen) + [d for d in range(len(c.maps)) if d not in c.holes_seen]
+    for di in order:
         for f in c.files:
             if f.disk != di:
                 continue
